@@ -2,6 +2,7 @@ package main
 
 import (
 	"bufio"
+	"encoding/hex"
 	"fmt"
 	"os"
 	"os/exec"
@@ -94,7 +95,8 @@ func isolatedCases(prop string, cases [][]string, workers int, out *bufio.Writer
 				}
 				os.WriteFile(cf, []byte(b.String()), 0o644)
 				cmd := exec.Command(os.Args[0], prop, cf, of)
-				cmd.Env = append(os.Environ(), "RSPROBE_CHILD=1")
+				side := filepath.Join(tmp, fmt.Sprintf("side-%d-%d", w, round))
+				cmd.Env = append(os.Environ(), "RSPROBE_CHILD=1", "RSPROBE_SIDE="+side)
 				err := cmd.Run()
 				data, _ := os.ReadFile(of)
 				done := 0
@@ -115,6 +117,13 @@ func isolatedCases(prop string, cases [][]string, workers int, out *bufio.Writer
 						code = ee.ExitCode()
 					}
 					res[idx[done]] = fmt.Sprintf("abort=%d", code)
+					// what the dying case left in its side file (a probe may mirror its captured output there)
+					if data, e := os.ReadFile(side); e == nil && len(data) > 0 {
+						if len(data) > 1<<16 {
+							data = data[len(data)-(1<<16):]
+						}
+						res[idx[done]] += " side=" + hex.EncodeToString(data)
+					}
 					done++
 				}
 				idx = idx[done:]
